@@ -132,6 +132,11 @@ func TestC16(t *testing.T) {
 		{"SELECT 1 AS `$1` FROM dual", nil, false},
 		{"SELECT 1 AS v FROM dual -- $1", nil, false},
 		{"SELECT 1 AS v /* $1 */ FROM dual", nil, false},
+		// a block comment is over at the first */ whatever stands before it, and a * or / inside it is only itself
+		{"SELECT 1 AS v /** $1 **/ FROM dual", nil, false},
+		{"SELECT 1 AS v /***/ FROM dual", nil, false},
+		{"SELECT 1 AS v /* 2*3 / 4 $1 */ FROM dual", nil, false},
+		{"SELECT $1 AS v /** was $9 **/ , $2 AS w FROM dual", []any{"a"}, true},
 		{"SELECT $0 AS v FROM dual", []any{"x"}, true},
 		{"SELECT $2 AS v FROM dual", []any{"x"}, true},
 		{"SELECT $1 AS v FROM dual", []any{"x", "y"}, true},
@@ -156,6 +161,11 @@ func TestC16(t *testing.T) {
 				r.violate("template %q: changed to %q (%v)", c.tmpl, out, err)
 			}
 		}()
+	}
+	// a placeholder after a comment that ends in **/ is still a placeholder
+	r.Cases++
+	if out, err := sanitize.SanitizeSQL("SELECT $1 AS v /** was $9 **/ , $2 AS w FROM dual", "a", int64(7)); err != nil || out != "SELECT 'a' AS v /** was $9 **/ , 7 AS w FROM dual" {
+		r.violate("placeholder after a comment ending in **/: got %q (%v)", out, err)
 	}
 	report(t, r)
 }
